@@ -71,6 +71,8 @@ def main():
             meta["steps"]["demo_with_patch"] = dict(rc=rc, tail=out[-600:])
         meta["checks"] = {}
         env = dict(os.environ, VERIF_REPO=wt)
+        if os.environ.get("VERIF_HARNESS_SUBSET"):
+            env["VERIF_HARNESS_SUBSET"] = os.environ["VERIF_HARNESS_SUBSET"]
         for p in props:
             t0 = time.time()
             rc, out = sh(["./check", p, "--tier", "quick"], cwd="/verif", env=env, timeout=3600)
